@@ -83,11 +83,31 @@ fn exec_one(vals: &[i32], which: Which, spec: &RngSpec, obs: &mut Obs) -> Vec<Vi
         Which::Worst => "Worst".to_string(),
         Which::Tournament(_) => "Tournament".to_string(),
     };
-    let Ok(winner) = r else {
-        return v; // panics are C06's subject
+    // inside C07's quantifier (non-empty population, 1 <= k <= n) a selection must RETURN an individual:
+    // a panic or an error there means no maximal / minimal / best-of-k individual was returned
+    let in_scope = n >= 1 && !matches!(which, Which::Tournament(k) if k == 0 || k > n);
+    let winner = match r {
+        Ok(w) => w,
+        Err(p) => {
+            if in_scope {
+                v.push(Violation::new(
+                    "returns-an-individual",
+                    format!("panic:{site}"),
+                    format!("{site} ({which:?}) on {vals:?} panicked: {}", p.message),
+                ));
+            }
+            return v;
+        }
     };
     let Some(w) = winner else {
-        return v; // documented errors are C06's subject
+        if in_scope {
+            v.push(Violation::new(
+                "returns-an-individual",
+                format!("error-on-valid-input:{site}"),
+                format!("{site} ({which:?}) on the non-empty population {vals:?} (size {n}) reported an error instead of returning an individual"),
+            ));
+        }
+        return v;
     };
     let wv = vals[w as usize];
     match which {
@@ -178,7 +198,17 @@ fn exec_scored(inds: &[(u8, i64)], which: Which, spec: &RngSpec, obs: &mut Obs) 
     });
     obs.count("draws", rng.draws());
     let mut v = Vec::new();
-    let Ok(Some(w)) = r else { return v };
+    let Ok(Some(w)) = r else {
+        let valid = !inds.is_empty() && !matches!(which, Which::Tournament(k) if k == 0 || k > inds.len());
+        if valid {
+            v.push(Violation::new(
+                "returns-an-individual",
+                "no-individual:scored-individuals".to_string(),
+                format!("{which:?} on the non-empty population {inds:?} panicked or reported an error instead of returning an individual"),
+            ));
+        }
+        return v;
+    };
     let best = inds.iter().map(|(_, s)| *s).max().unwrap_or(0);
     let worst = inds.iter().map(|(_, s)| *s).min().unwrap_or(0);
     let genomes_repeat = (0..inds.len()).any(|i| (0..i).any(|j| inds[i].0 == inds[j].0 && inds[i].1 != inds[j].1));
@@ -219,9 +249,15 @@ fn exec_dist(n: usize, k: usize, trials: u64, seed: u64, cells_total: u64, obs: 
     let t = tournament(k);
     let mut subsets = vec![0u64; 1 << n];
     let mut winners = vec![0u64; n];
-    for _ in 0..trials {
+    for trial_no in 0..trials {
         CMP_LOG.with(|l| l.borrow_mut().clear());
-        let Ok(Ok(w)) = catch(|| t.select(&pop, &mut rng).map(|x| x.id)) else { return Vec::new() };
+        let Ok(Ok(w)) = catch(|| t.select(&pop, &mut rng).map(|x| x.id)) else {
+            return vec![Violation::new(
+                "returns-an-individual",
+                format!("no-individual:n{n}"),
+                format!("Tournament({k}) on a population of {n} panicked or reported an error in trial {trial_no}"),
+            )];
+        };
         let mut mask = 1usize << w;
         CMP_LOG.with(|l| {
             for id in l.borrow().iter() {
